@@ -843,6 +843,7 @@ SKIP_RECORD_PARSE:
             return MATRIXSSL_SUCCESS;
         }
 
+ADVANCE_TO_APP_DATA:
         if (dtlsChkReplayWindow(ssl, ssl->rec.rsn) != 1)
         {
             psTraceIntDtls("Seen this record before %d\n", ssl->rec.rsn[5]);
@@ -855,7 +856,6 @@ SKIP_RECORD_PARSE:
             return MATRIXSSL_SUCCESS;
         }
     }
-ADVANCE_TO_APP_DATA:
 #endif /* USE_DTLS */
 
 #ifdef USE_MATRIXSSL_STATS
